@@ -922,6 +922,13 @@ func (x *Exec) execAssign(st *State, s *ast.AssignStmt) {
 						x.vc.note("map-typed local " + obj.Name() + " treated as an alias of " + x.prog.text(s.Rhs[i]))
 						continue
 					}
+					if i == 0 && len(s.Rhs) == 1 && len(s.Lhs) == 2 && x.aliasable(obj, s.Rhs[0]) && x.writtenThrough(obj) {
+						// m, ok := outer[k]: m denotes the map stored under k (when there is one)
+						delete(x.aliases, obj)
+						x.aliases[obj] = x.lvOf(st, s.Rhs[0])
+						x.vc.note("map-typed local " + obj.Name() + " treated as an alias of " + x.prog.text(s.Rhs[0]))
+						continue
+					}
 					if _, was := x.aliases[obj]; was && s.Tok == token.ASSIGN {
 						// re-binding the variable itself (m = make(...)): no longer an alias
 						delete(x.aliases, obj)
@@ -937,6 +944,17 @@ func (x *Exec) execAssign(st *State, s *ast.AssignStmt) {
 		x.lvWrite = false
 		v := x.convertTo(st, vals[i], x.typeOf(l))
 		x.storeLV(st, lv, v)
+		// outer[k] = m / x.f = m with m a map-typed local: from here on m and the container share the map
+		if len(s.Rhs) == len(s.Lhs) {
+			if rid, ok := unparen(s.Rhs[i]).(*ast.Ident); ok {
+				if robj, ok := x.objOf(rid).(*types.Var); ok && !x.isGlobal(robj) {
+					if _, isMap := robj.Type().Underlying().(*types.Map); isMap && x.aliasable(robj, l) {
+						x.aliases[robj] = lv
+						x.vc.note("map-typed local " + robj.Name() + " shares the map it was stored as " + x.prog.text(l))
+					}
+				}
+			}
+		}
 	}
 }
 
@@ -1772,6 +1790,34 @@ func (x *Exec) execRange(st *State, s *ast.RangeStmt, label string) *flow {
 		out.normal = x.merge(append([]*State{exit}, brk...))
 	}
 	return out
+}
+
+// writtenThrough: the function stores into (or deletes from) the map through this local somewhere
+func (x *Exec) writtenThrough(obj types.Object) bool {
+	if x.body == nil {
+		return false
+	}
+	found := false
+	ast.Inspect(x.body, func(n ast.Node) bool {
+		switch s := n.(type) {
+		case *ast.AssignStmt:
+			for _, l := range s.Lhs {
+				if ix, ok := unparen(l).(*ast.IndexExpr); ok {
+					if id, ok := unparen(ix.X).(*ast.Ident); ok && x.objOf(id) == obj {
+						found = true
+					}
+				}
+			}
+		case *ast.CallExpr:
+			if id, ok := s.Fun.(*ast.Ident); ok && id.Name == "delete" && len(s.Args) == 2 {
+				if a, ok := unparen(s.Args[0]).(*ast.Ident); ok && x.objOf(a) == obj {
+					found = true
+				}
+			}
+		}
+		return !found
+	})
+	return found
 }
 
 // aliasable: a map-typed local initialised from a map element or a field holds a reference to
